@@ -27,6 +27,14 @@ type scnParams struct {
 	Spend     []bool `json:"spend"`     // Spend[i]: block i+1 carries a Qi spend (if an outpoint is available)
 	Fork      int    `json:"fork"`      // the side branch leaves the main chain after this block (1-based, < NBlocks)
 	BranchLen int    `json:"branchlen"` // 1 or 2
+	// large block: Big > 0 stores Big inbound Qi coinbase ETXs (small denominations: ~60 UTXOs each)
+	// for the child of block BigAt, i.e. block BigAt+1 (and its sibling) creates thousands of UTXOs and
+	// queues far more than ethdb.IdealBatchSize bytes in its block batch
+	Big   int `json:"big,omitempty"`
+	BigAt int `json:"bigat,omitempty"`
+	// OnlyBig: enumerate the crash points of the actions that involve a large block only (corpus
+	// scenario 3: its small appends have the shapes of the other corpus scenarios)
+	OnlyBig bool `json:"onlybig,omitempty"`
 }
 
 // kv: one entry of the flat key space, by dictionary ids (key id, value id)
@@ -68,6 +76,76 @@ type scenario struct {
 	valID   map[string]int
 	Keys    []string
 	Notes   []string
+	// failures of the structural write-log monitor (checkLog), reported by the caller
+	LogFails []logFail
+	NLogs    int
+}
+
+type logFail struct {
+	Sig    string
+	What   string
+	Action int
+}
+
+// checkLog is the structural, size-independent write-log monitor, evaluated on EVERY logged
+// top-level write sequence (main appends, siblings, branch blocks, the reorg) whether or not its
+// crash points are enumerated: the keys a block owns in the unversioned part of the database -
+// flat 'ut'/'cl' entries, undo records, multiset / set size / processed marker - may only be
+// written by batch commits, and only by (a) THE block batch of a (re-)appended block (the one that
+// carries the processed-state marker), exactly one per appended block, or (b) THE rollback batch of
+// a rolled-back block (head hash + canonical hash inside), exactly one per rolled-back block.
+// Any other top-level write touching them (a direct put/delete, an additional batch commit: an
+// early/partial flush of the block batch) creates a crash point with block effects half applied.
+func (s *scenario) checkLog(kind string, ai int, ops []topOp, nBack, nFwd int) {
+	s.NLogs++
+	owned := func(t topOp) (string, bool) {
+		for _, x := range t.Ops {
+			switch c := classOf(x.K); c {
+			case kUtxo, kLockup, kUndo, kCommit:
+				return className[c], true
+			}
+		}
+		return "", false
+	}
+	nBlock, nRoll := 0, 0
+	seen := map[string]bool{}
+	fail := func(sig, what string) {
+		if !seen[sig] {
+			seen[sig] = true
+			s.LogFails = append(s.LogFails, logFail{Sig: "writelog:" + kind + ":" + sig, What: what, Action: ai})
+		}
+	}
+	for i, t := range ops {
+		// the two legitimate carriers, recognised by structure (a rollback batch of a block without
+		// flat effects touches no owned key: it is still counted)
+		if t.Batch && effectsBatchIndex([]topOp{t}) == 0 {
+			nBlock++
+			continue
+		}
+		if t.Batch && hasKeyClass(t.Ops, kHead) && hasKeyClass(t.Ops, kCanon) {
+			nRoll++
+			continue
+		}
+		cls, ok := owned(t)
+		if !ok {
+			continue
+		}
+		if t.Batch && hasKeyClass(t.Ops, kCanon) {
+			fail("rollback-batch-without-head", fmt.Sprintf("top-level write %d of %d is a batch commit that changes a canonical hash and %s keys but does not carry the head block hash: undo of a block is not atomic with the head moving back", i+1, len(ops), cls))
+			continue
+		}
+		if !t.Batch {
+			fail("direct-write", fmt.Sprintf("top-level write %d of %d is a direct (non-batch) put/delete of a %s key: not atomic with the block batch / head pointer", i+1, len(ops), cls))
+		} else {
+			fail("partial-batch", fmt.Sprintf("top-level write %d of %d is a batch commit (%d operations) that touches %s keys but is neither the block batch (processed-state marker) nor a rollback batch (head + canonical hash): block effects are committed in more than one piece", i+1, len(ops), len(t.Ops), cls))
+		}
+	}
+	if nBlock != nFwd {
+		fail("block-batch-count", fmt.Sprintf("%d block batches (batch with the processed-state marker) for %d appended blocks", nBlock, nFwd))
+	}
+	if nRoll != nBack {
+		fail("rollback-batch-count", fmt.Sprintf("%d rollback batches for %d rolled-back blocks", nRoll, nBack))
+	}
 }
 
 func (s *scenario) kid(k string) int {
@@ -151,6 +229,13 @@ func randomParams(r *hlib.Rng) scnParams {
 	// the model's common-prefix computation (see design/C11.md)
 	p.Fork = 2 + r.Intn(p.NBlocks-2)
 	p.BranchLen = 1 + r.Intn(2)
+	// one scenario in eight carries a large block of random size (30..130 Qi coinbase ETXs = 1800..7000
+	// UTXO creations, i.e. from below to several times ethdb.IdealBatchSize in the block batch) at a
+	// random height >= 2; drawn last so that the other parameters of a seed do not depend on it
+	if r.Chance(12) {
+		p.Big = 30 + r.Intn(101)
+		p.BigAt = 1 + r.Intn(p.NBlocks-1)
+	}
 	return p
 }
 
@@ -163,12 +248,41 @@ func corpusParams(i int) scnParams {
 		return scnParams{Seed: 11, NBlocks: 5, Deliver: 1, NFund: 4, Coinbase: true, Spend: []bool{false, false, true, true, true}, Fork: 2, BranchLen: 2}
 	case 1:
 		return scnParams{Seed: 12, NBlocks: 3, Deliver: 1, NFund: 0, Coinbase: false, Spend: []bool{false, false, false}, Fork: 2, BranchLen: 1}
-	default:
+	case 2:
 		return scnParams{Seed: 13, NBlocks: 3, Deliver: 1, NFund: 2, Coinbase: true, Spend: []bool{false, false, false}, Fork: 2, BranchLen: 1}
+	default:
+		// 3: a LARGE block (block 3 and its sibling: ~7000 UTXO creations + one spend, several times
+		// ethdb.IdealBatchSize queued in the block batch), a small block on top, and a reorg that rolls
+		// the large block back and re-appends its large sibling
+		return scnParams{Seed: 14, NBlocks: 4, Deliver: 1, NFund: 2, Coinbase: false, Spend: []bool{false, false, true, true}, Fork: 2, BranchLen: 1, Big: bigEtxCount, BigAt: 2, OnlyBig: true}
 	}
 }
 
-const nCorpus = 3
+const nCorpus = 4
+
+// number of Qi coinbase ETXs delivered for the large block (the worker includes ETXs until the
+// minimum ETX gas share of the block is used: ~115 of them fit into one block)
+const bigEtxCount = 120
+
+// bigThreshold: a block with more flat-key-space effects than this is "large" (sparse continuation
+// schedule, projected Coq case)
+const bigThreshold = 500
+
+func (s *scenario) isBigBlock(id int) bool {
+	b := s.Blocks[id]
+	return b != nil && len(b.Created)+len(b.Spent) > bigThreshold
+}
+
+func (s *scenario) isBigAction(a *action) bool {
+	ids := append([]int{a.Target}, a.Back...)
+	ids = append(ids, a.Fwd...)
+	for _, id := range ids {
+		if s.isBigBlock(id) {
+			return true
+		}
+	}
+	return false
+}
 
 type builder struct {
 	s       *scenario
@@ -196,6 +310,19 @@ func (b *builder) fundingEtxs() types.Transactions {
 		data := append([]byte{0}, common.BytesToHash(b.r.Bytes(32)).Bytes()...)
 		out = append(out, types.NewTx(&types.ExternalTx{To: &to, Gas: params.TxGas, Value: big.NewInt(2_345_678), EtxType: types.CoinbaseType,
 			OriginatingTxHash: common.BytesToHash(b.r.Bytes(32)), ETXIndex: 0, Sender: b.w1.a, Data: data}))
+	}
+	return out
+}
+
+// bigEtxs: n Qi coinbase ETXs (lockup byte 0) of 999999.999 Qi to n distinct Qi addresses, as the
+// dominant chain delivers them for work shares; each is paid out in ~60 UTXOs of all denominations.
+func (b *builder) bigEtxs(n int) types.Transactions {
+	var out types.Transactions
+	for i := 0; i < n; i++ {
+		to := common.BytesToAddress(append([]byte{0x00, 0x80, byte(i), byte(i >> 8)}, make([]byte, 16)...), loc)
+		data := append([]byte{0}, common.BytesToHash(b.r.Bytes(32)).Bytes()...)
+		out = append(out, types.NewTx(&types.ExternalTx{To: &to, Gas: params.TxGas, Value: big.NewInt(999_999_999), EtxType: types.CoinbaseType,
+			OriginatingTxHash: common.BytesToHash(b.r.Bytes(32)), ETXIndex: uint16(i), Sender: to, Data: data}))
 	}
 	return out
 }
@@ -304,6 +431,8 @@ func buildScenario(p scnParams) (s *scenario, err error) {
 			return nil, fmt.Errorf("append block %d: %v", i, err)
 		}
 		z.ResetPool()
+		s.checkLog("append", i-1, ops, 0, 1)
+		s.checkLog("append", i-1, sibOps, 0, 1)
 		cr, sp, err := s.effectsOf(ops, pre.flat())
 		if err != nil {
 			return nil, err
@@ -327,6 +456,9 @@ func buildScenario(p scnParams) (s *scenario, err error) {
 			for j := 0; j < p.NFund; j++ {
 				b.unspent = append(b.unspent, outpoint{b.origin, uint16(j)})
 			}
+		}
+		if p.Big > 0 && i == p.BigAt {
+			pendingOut = append(pendingOut, b.bigEtxs(p.Big)...)
 		}
 		rawdb.WriteInboundEtxs(db, wo.Hash(), pendingOut)
 		pendingOut = nil
@@ -359,6 +491,7 @@ func buildScenario(p scnParams) (s *scenario, err error) {
 		if err != nil {
 			return nil, fmt.Errorf("branch block: %v", err)
 		}
+		s.checkLog("append", f, ops2, 0, 1)
 		cr2, sp2, err := s.effectsOf(ops2, s.RefFlat[100+f+1])
 		if err != nil {
 			return nil, err
@@ -392,6 +525,7 @@ func buildScenario(p scnParams) (s *scenario, err error) {
 	for i := p.NBlocks; i > f; i-- {
 		back = append(back, i)
 	}
+	s.checkLog("reorg", len(s.Actions), ops, len(back), len(branch))
 	allowed := append([]int{f}, back...)
 	allowed = append(allowed, branch...)
 	s.Actions = append(s.Actions, &action{Kind: "reorg", Target: tip, Base: append([]int{}, base...), Pre: pre, Ops: ops,
